@@ -129,15 +129,19 @@ def kahnLoop (nodes : List Nat) (adj : Adj) : Nat → (Nat → Int) → List Nat
     let st := (adjIn nodes adj v).foldl relax (deg, q)
     kahnLoop nodes adj fuel st.1 st.2 (res ++ [v])
 
+/-- occurrence counts in a list of edge targets, as the in-degree dictionary -/
+def indegOf (occ : List Nat) : Nat → Int := fun x => (occ.count x : Nat)
+
 /-- the in-degree dictionary after the construction loop: one increment per edge occurrence
 `v → w` with `v` in the node list and `w in node_set` -/
-def indeg0 (nodes : List Nat) (adj : Adj) : Nat → Int :=
-  fun x => ((nodes.flatMap (adjIn nodes adj)).count x : Nat)
+def indeg0 (nodes : List Nat) (adj : Adj) : Nat → Int := indegOf (nodes.flatMap (adjIn nodes adj))
 
 /-- `topological_sort`: `none` = INFEASIBLE.  Every pass of the loop outputs a node, so
-`nodes.length` passes suffice (proved: `kahn_correct`). -/
+`nodes.length` passes suffice (proved: `kahn_correct`).  (`indegOf occ` with `occ` bound first, so
+that the compiled driver builds the occurrence list once.) -/
 def kahn (nodes : List Nat) (adj : Adj) : Option (List Nat) :=
-  let deg := indeg0 nodes adj
+  let occ := nodes.flatMap (adjIn nodes adj)
+  let deg := indegOf occ
   let res := kahnLoop nodes adj nodes.length deg (nodes.filter fun v => deg v == 0) []
   if res.length = nodes.length then some res else none
 
@@ -202,15 +206,22 @@ def tarjan (U : List Nat) (nodes : List Nat) (adj : Adj) : List (List Nat) :=
 
 /-! ### Mirror of `condense` -/
 
-/-- `condensed_edges[i]` as a duplicate-free list, in first-insertion order (the code keeps a
-set, so only membership is observable) -/
-def condEdges (nodes : List Nat) (adj : Adj) (comps : List (List Nat)) : List (List Nat) :=
-  (List.range comps.length).map fun i =>
-    dedup ((nodes.filter fun v => compIdx comps v == some i).flatMap fun v =>
+/-- the inter-component edges `(v_comp, w_comp)` in the order the loop of `condense` meets them -/
+def condPairs (nodes : List Nat) (adj : Adj) (comps : List (List Nat)) : List (Nat × Nat) :=
+  nodes.flatMap fun v =>
+    match compIdx comps v with
+    | none => []
+    | some i =>
       (adj v).filterMap fun w =>
         match compIdx comps w with
-        | some j => if j != i then some j else none
-        | none => none)
+        | some j => if j != i then some (i, j) else none
+        | none => none
+
+/-- `condensed_edges[i]` as a duplicate-free list (the code keeps a set, so only membership is
+observable) -/
+def condEdges (nodes : List Nat) (adj : Adj) (comps : List (List Nat)) : List (List Nat) :=
+  let pairs := condPairs nodes adj comps
+  (List.range comps.length).map fun i => dedup ((pairs.filter fun p => p.1 == i).map (·.2))
 
 /-! ### Clause checks for inputs whose neighbour lists leave the node list
 
